@@ -376,14 +376,53 @@ impl Client {
         Ok(v)
     }
 
+    /// orderly close (FIN): what a modelled "client disconnects" action does. Every orderly close leaves a
+    /// TIME_WAIT socket for 60 s; beyond 1500 of them within a minute in this process the disconnect is
+    /// made abortive (RST) instead - to the server both are a dead peer handled by the same removal path.
     pub fn close(&mut self) {
+        static RECENT: Mutex<Vec<u64>> = Mutex::new(Vec::new());
+        let now = vtime::real_now_ns();
+        let too_many = {
+            let mut r = RECENT.lock().unwrap();
+            r.retain(|t| now - *t < 60_000_000_000);
+            if r.len() >= 1500 {
+                true
+            } else {
+                r.push(now);
+                false
+            }
+        };
+        if too_many {
+            self.discard();
+            return;
+        }
         if let Some(s) = self.stream.take() {
             let _ = s.shutdown(std::net::Shutdown::Both);
         }
         self.closed = true;
     }
 
+    /// abortive close (RST, SO_LINGER 0) for the harness's own housekeeping between cases: leaves no
+    /// TIME_WAIT socket behind (tens of thousands of short connections would exhaust the port range)
+    pub fn discard(&mut self) {
+        if let Some(s) = self.stream.take() {
+            use std::os::fd::AsRawFd;
+            let lg = libc::linger { l_onoff: 1, l_linger: 0 };
+            unsafe {
+                libc::setsockopt(s.as_raw_fd(), libc::SOL_SOCKET, libc::SO_LINGER, &lg as *const libc::linger as *const libc::c_void, std::mem::size_of::<libc::linger>() as libc::socklen_t);
+            }
+            drop(s);
+        }
+        self.closed = true;
+    }
+
     pub fn is_open(&self) -> bool {
         self.stream.is_some() && !self.closed
+    }
+}
+
+impl Drop for Client {
+    fn drop(&mut self) {
+        self.discard();
     }
 }
